@@ -8,7 +8,7 @@ contract says, the failed one leaves no trace, Union members start together) nee
 validation against Sem for the positions and values at the recovering nodes themselves.
 """
 import itertools
-from .. import ast as A, gen, values as V, campaign, universes as U
+from .. import ast as A, gen, values as V, campaign, universes as U, speccode
 from . import common
 
 LEVEL = "model_checking"
@@ -42,6 +42,9 @@ def run(ctx):
             camp.sh.maybe_flush()
             if i < 3:
                 ctx.sample({"program": prog})
+        # spec -> code: every session TLC explores on the look-ahead part of the model's universe (design-level clauses checked there)
+        progs, kw, sessions, _ = speccode.explore(ctx, focus="C09", part=speccode.part_of(ctx, 3 if quick else 4))
+        speccode.drive(camp, progs, kw, sessions)
         vs = camp.validate()
         campaign.judge(ctx, camp, vs, conformance=lambda v, m: campaign.kind_of(v) in KINDS and
                        (v["exp"]["k"] in RECOVER or v["got"]["k"] in RECOVER or campaign.kind_of(v).startswith("result:")) and m["case"]["op"] == "parse")
